@@ -27,6 +27,10 @@ structure Cfg where
   loc : Str → Option LocGlue
   swrTimeout : Int
 
+/-- newTransport: `cmp.Or(max(swrTimeout, 0), DefaultSWRTimeout)` -/
+def swrTimeoutOf (configured : Int) : Int :=
+  if max configured 0 = 0 then Generated.defaultSWRTimeoutNs else max configured 0
+
 /-- ParseResponse: hop-by-hop fields of the decoded entry are dropped -/
 def parsedEntry (e : Entry) : Entry :=
   { e with resp := { e.resp with header := removeHopByHop e.resp.header } }
